@@ -229,7 +229,7 @@ def run(ctx):
                     {"kind": "failing-input", "case": b})
     import analyzer_hist
     analyzer_hist.check(ctx, "C14", broken)
-    if broken and not ctx.findings:
+    if broken and not ctx.unknown_findings():
         ctx.finding("unproved", "proof/translator broken but no failing table entry or crystal found",
                     {"kind": "broken-obligation", "broken": broken}, found_input=False)
     ctx.coverage["broken"] = [{"what": k, "info": i} for k, i in broken]
